@@ -92,7 +92,7 @@ func c02Chains(c *Ctx, pool map[int][]uint64) []c02Chain {
 		add("wide61", []int{61, 61, 61, 61, 61, 60, 60, 60, 61, 61, 60, 61}, []int{61, 60, 61, 60})
 	}
 	// random mixed chains: #Q 1..5, #P 0..3
-	n := c.Scale(3, 60)
+	n := c.Scale(3, 36)
 	for k := 0; k < n; k++ {
 		nq := 1 + r.Intn(5)
 		np := r.Intn(4)
@@ -328,22 +328,36 @@ func genC02(c *Ctx) {
 		for _, q := range append(append([]uint64{}, ch.Q...), ch.P...) {
 			c.Count(fmt.Sprintf("prime-bits:%d", bits.Len64(q)))
 		}
-		c02Div(c, po, N, ringQ, ch)
-		if ringP != nil {
-			c02BasisExt(c, po, N, ringQ, ringP, ch)
+		e := c02NewEnv(N, ringQ, ringP, ch)
+		// every real-code call below is individually guarded; this is the safety net for anything else
+		// (constructors, helpers): a panic becomes a failing probe, never a dead harness
+		guard := func(section string, f func()) {
+			if c02Panics(f) {
+				c.Probe("no_panic", section+" chain="+ch.tag, "C02/"+section+"/panic", "section panicked outside a guarded call")
+			}
 		}
-		c02Decomp(c, po, N, ringQ, ringP, ch)
+		guard("Div", func() { c02Div(c, po, e) })
 		if ringP != nil {
-			c02Small(c, po, N, ringQ, ringP, ch)
+			guard("BasisExtender", func() { c02BasisExt(c, po, e) })
+		}
+		guard("Decomposer", func() { c02Decomp(c, po, e) })
+		guard("History", func() { c02History(c, po, e) })
+		if ringP != nil {
+			guard("SmallNorm", func() { c02Small(c, po, N, ringQ, ringP, ch) })
 		}
 		if len(ch.Q) <= 6 {
-			c02DecompNTT(c, po, ch)
+			guard("DecomposeNTT", func() { c02DecompNTT(c, po, ch) })
 		}
 	}
-	c02Mask(c, po, pool)
-	c02Int(c, po, pool)
-	c02KeySwitchNoP(c)
-	c02DigitCount(c)
+	top := func(section string, f func()) {
+		if c02Panics(f) {
+			c.Probe("no_panic", section, "C02/"+section+"/panic", "section panicked")
+		}
+	}
+	top("MaskVec", func() { c02Mask(c, po, pool) })
+	top("IntSpec", func() { c02Int(c, po, pool) })
+	top("KeySwitch", func() { c02KeySwitchNoP(c) })
+	top("DigitCount", func() { c02DigitCount(c) })
 	_ = r
 }
 
@@ -372,9 +386,10 @@ func c02CallDiv(kind string, rl *ring.Ring, nb int, p0, buff, p1 ring.Poly) {
 	}
 }
 
-func c02Div(c *Ctx, po bool, N int, ringQ *ring.Ring, ch c02Chain) {
+func c02Div(c *Ctx, po bool, e *c02Env) {
 	r := c.rng
-	gs := c02PrimRoots(ringQ)
+	N, ringQ, ch := e.N, e.ringQ, e.ch
+	gs := e.gQ
 	for _, level := range c02Levels(len(ch.Q)) {
 		rl := ringQ.AtLevel(level)
 		moduli := ch.Q[:level+1]
@@ -382,8 +397,6 @@ func c02Div(c *Ctx, po bool, N int, ringQ *ring.Ring, ch c02Chain) {
 		D := c02BigU(ch.Q[level])
 		for _, kind := range c02DivKinds {
 			many := strings.Contains(kind, "many")
-			isNTT := strings.HasSuffix(kind, "ntt")
-			isRound := strings.HasPrefix(kind, "round")
 			nbs := []int{1}
 			if many {
 				nbs = nil
@@ -405,29 +418,7 @@ func c02Div(c *Ctx, po bool, N int, ringQ *ring.Ring, ch c02Chain) {
 					default:
 						X = c02FamValues(c, N, M, new(big.Int).Mul(D, c02BigU(ch.Q[(level+len(ch.Q)-1)%len(ch.Q)])))
 					}
-					rows := c02RowsOf(X, moduli)
-					p0 := c02PolyFromRows(N, rows)
-					if isNTT {
-						rl.NTT(p0, p0)
-					}
-					in := c02RowsCopy(p0, level+1)
-					buff := c02JunkPoly(r, N, level)
-					outLevel := level - nb
-					if outLevel < 0 {
-						continue
-					}
-					p1 := c02JunkPoly(r, N, outLevel)
-					line := fmt.Sprintf("div %s %d %s %s %d %d %s", kind, N, Vec(ringQ.ModuliChain()), Vec(gs), level, nb, Mat(in))
-					out := Try(func() string {
-						c02CallDiv(kind, rl, nb, p0, buff, p1)
-						return Mat(c02RowsCopy(p1, outLevel+1)) + "|" + Mat(c02RowsCopy(p0, level+1))
-					})
-					if !po {
-						c.Emit(line, out)
-					}
-					c.Count("div:" + kind)
-					// --- probes against big.Int
-					c02ProbeDiv(c, kind, isNTT, isRound, ringQ, level, nb, X, in, p0, p1, line)
+					c02OneDiv(c, po, e, rl, kind, level, nb, X, "")
 				}
 			}
 		}
@@ -523,11 +514,11 @@ func c02ModUpBound(src []uint64, p uint64) *big.Int {
 
 // ---- BasisExtender ------------------------------------------------------------------------------
 
-func c02BasisExt(c *Ctx, po bool, N int, ringQ, ringP *ring.Ring, ch c02Chain) {
+func c02BasisExt(c *Ctx, po bool, e *c02Env) {
 	r := c.rng
+	N, ringQ, ringP, ch := e.N, e.ringQ, e.ringP, e.ch
 	be := ring.NewBasisExtender(ringQ, ringP)
-	gQ, gP := c02PrimRoots(ringQ), c02PrimRoots(ringP)
-	Qs, Ps := Vec(ch.Q), Vec(ch.P)
+	Qs, Ps := e.Qs, e.Ps
 	for _, levelQ := range c02Levels(len(ch.Q)) {
 		for levelP := 0; levelP < len(ch.P); levelP++ {
 			mQ, mP := ch.Q[:levelQ+1], ch.P[:levelP+1]
@@ -544,39 +535,35 @@ func c02BasisExt(c *Ctx, po bool, N int, ringQ, ringP *ring.Ring, ch c02Chain) {
 					if rep == 2 {
 						X = c02ConstValues(N, new(big.Int).Sub(Msrc, big.NewInt(1)))
 					}
-					in := c02RowsOf(X, src)
-					pin := c02PolyFromRows(N, in)
-					pout := c02JunkPoly(r, N, len(dst)-1)
-					if dir == "qtop" {
-						be.ModUpQtoP(levelQ, levelP, pin, pout)
-					} else {
-						be.ModUpPtoQ(levelP, levelQ, pin, pout)
-					}
-					out := c02RowsCopy(pout, len(dst))
-					if !po {
-						c.Emit(fmt.Sprintf("modup %s %s %s %d %d %s", dir, Qs, Ps, levelQ, levelP, Mat(in)), Mat(out))
-					}
-					c.Count("modup:" + dir)
-					c02ProbeModUp(c, dir, src, dst, X, in, c02RowsCopy(pin, len(src)), out, fmt.Sprintf("%s %s %s %d %d %s", dir, Qs, Ps, levelQ, levelP, Mat(in)))
+					pin, in := c02OneModUp(c, po, e, be, dir, levelQ, levelP, X, "")
 					// raw ModUpExact (unreduced output, exposes the float index v)
 					{
-						var muc ring.ModUpConstants
 						var line string
 						raw := c02JunkPoly(r, N, len(dst)-1)
+						pan := c02Panics(func() {
+							if dir == "qtop" {
+								ring.ModUpExact(pin.Coeffs[:levelQ+1], raw.Coeffs[:levelP+1], ringQ, ringP, ring.GenModUpConstants(mQ, ch.P))
+							} else {
+								ring.ModUpExact(pin.Coeffs[:levelP+1], raw.Coeffs[:levelQ+1], ringP, ringQ, ring.GenModUpConstants(mP, ch.Q))
+							}
+						})
 						if dir == "qtop" {
-							muc = ring.GenModUpConstants(mQ, ch.P)
-							ring.ModUpExact(pin.Coeffs[:levelQ+1], raw.Coeffs[:levelP+1], ringQ, ringP, muc)
 							line = fmt.Sprintf("%s %s %d %d %s", Qs, Ps, levelQ, levelP, Mat(in))
 						} else {
-							muc = ring.GenModUpConstants(mP, ch.Q)
-							ring.ModUpExact(pin.Coeffs[:levelP+1], raw.Coeffs[:levelQ+1], ringP, ringQ, muc)
 							line = fmt.Sprintf("%s %s %d %d %s", Ps, Qs, levelP, levelQ, Mat(in))
+						}
+						c.Count("modupexact")
+						if pan {
+							if !po {
+								c.Emit("modupexact "+line, "panic")
+							}
+							c.Probe("no_panic", "modupexact "+line, "C02/ModUpExact/panic", "panicked")
+							continue
 						}
 						rawRows := c02RowsCopy(raw, len(dst))
 						if !po {
 							c.Emit("modupexact "+line, Mat(rawRows))
 						}
-						c.Count("modupexact")
 						// the doc comment of ModUpExact: "returned values are in [0, kP-1]" (k read from the source;
 						// stated for at most 8 source moduli of at most 61 bits), else (2 + n·max(Qi)/2^64)·P
 						dd := ""
@@ -593,51 +580,11 @@ func c02BasisExt(c *Ctx, po bool, N int, ringQ, ringP *ring.Ring, ch c02Chain) {
 				}
 				// ---- ModDown
 				for _, kind := range []string{"qptoq", "qptoqntt", "qptop"} {
-					MQP := new(big.Int).Mul(MQ, MP)
 					D := MP
 					if kind == "qptop" {
 						D = MQ
 					}
-					X := c02FamValues(c, N, MQP, D)
-					inQ, inP := c02RowsOf(X, mQ), c02RowsOf(X, mP)
-					p1Q, p1P := c02PolyFromRows(N, inQ), c02PolyFromRows(N, inP)
-					var out [][]uint64
-					var line string
-					switch kind {
-					case "qptoq":
-						p2 := c02JunkPoly(r, N, levelQ)
-						be.ModDownQPtoQ(levelQ, levelP, p1Q, p1P, p2)
-						out = c02RowsCopy(p2, levelQ+1)
-						line = fmt.Sprintf("moddown qptoq %s %s %d %d %s %s", Qs, Ps, levelQ, levelP, Mat(inQ), Mat(inP))
-					case "qptop":
-						p2 := c02JunkPoly(r, N, levelP)
-						be.ModDownQPtoP(levelQ, levelP, p1Q, p1P, p2)
-						out = c02RowsCopy(p2, levelP+1)
-						line = fmt.Sprintf("moddown qptop %s %s %d %d %s %s", Qs, Ps, levelQ, levelP, Mat(inQ), Mat(inP))
-					case "qptoqntt":
-						ringQ.AtLevel(levelQ).NTT(p1Q, p1Q)
-						ringP.AtLevel(levelP).NTT(p1P, p1P)
-						inQ, inP = c02RowsCopy(p1Q, levelQ+1), c02RowsCopy(p1P, levelP+1)
-						p2 := c02JunkPoly(r, N, levelQ)
-						be.ModDownQPtoQNTT(levelQ, levelP, p1Q, p1P, p2)
-						out = c02RowsCopy(p2, levelQ+1)
-						line = fmt.Sprintf("moddownntt %d %s %s %s %s %d %d %s %s", N, Qs, Vec(gQ), Ps, Vec(gP), levelQ, levelP, Mat(inQ), Mat(inP))
-						ringQ.AtLevel(levelQ).INTT(p2, p2)
-						out2 := c02RowsCopy(p2, levelQ+1)
-						c02ProbeModDown(c, kind, mQ, mP, X, out2, line)
-					}
-					if !po {
-						c.Emit(line, Mat(out))
-					}
-					c.Count("moddown:" + kind)
-					if kind != "qptoqntt" {
-						c02ProbeModDown(c, kind, mQ, mP, X, out, line)
-					}
-					d := ""
-					if !c02RowsEq(c02RowsCopy(p1Q, levelQ+1), inQ) || !c02RowsEq(c02RowsCopy(p1P, levelP+1), inP) {
-						d = "input rewritten"
-					}
-					c.Probe("moddown_input_unchanged", line, "C02/ModDown/"+kind+"/input-rewritten", d)
+					c02OneModDown(c, po, e, be, kind, levelQ, levelP, c02FamValues(c, N, new(big.Int).Mul(MQ, MP), D), "")
 				}
 			}
 		}
@@ -646,83 +593,18 @@ func c02BasisExt(c *Ctx, po bool, N int, ringQ, ringP *ring.Ring, ch c02Chain) {
 
 // ---- Decomposer ---------------------------------------------------------------------------------
 
-func c02Decomp(c *Ctx, po bool, N int, ringQ, ringP *ring.Ring, ch c02Chain) {
-	r := c.rng
-	dec := ring.NewDecomposer(ringQ, ringP)
-	Qs, Ps := Vec(ch.Q), Vec(ch.P)
-	hasP := 0
-	if ringP != nil {
-		hasP = 1
-	}
-	for _, levelQ := range c02Levels(len(ch.Q)) {
-		mQ := ch.Q[:levelQ+1]
-		MQ := c02ProdBig(mQ)
+func c02Decomp(c *Ctx, po bool, e *c02Env) {
+	dec := ring.NewDecomposer(e.ringQ, e.ringP)
+	for _, levelQ := range c02Levels(len(e.ch.Q)) {
 		lps := []int{-1}
-		if ringP != nil {
+		if e.ringP != nil {
 			lps = nil
-			for lp := 0; lp < len(ch.P); lp++ {
+			for lp := 0; lp < len(e.ch.P); lp++ {
 				lps = append(lps, lp)
 			}
 		}
 		for _, levelP := range lps {
-			nbPi := levelP + 1
-			if ringP == nil {
-				nbPi = 1 // the only sound value when there is no P: one digit per prime of Q
-			}
-			size := (levelQ + nbPi) / nbPi
-			var Dg *big.Int
-			if nbPi <= levelQ+1 {
-				Dg = c02ProdBig(ch.Q[:nbPi])
-			}
-			X := c02FamValues(c, N, MQ, Dg)
-			in := c02RowsOf(X, mQ)
-			p0 := c02PolyFromRows(N, in)
-			digitsQ := make([][][]uint64, size)
-			digitsP := make([][][]uint64, size)
-			for d := 0; d < size; d++ {
-				p1Q := c02JunkPoly(r, N, levelQ)
-				for i := range p1Q.Coeffs {
-					for j := range p1Q.Coeffs[i] {
-						p1Q.Coeffs[i][j] %= ch.Q[i]
-					}
-				}
-				prev := c02RowsCopy(p1Q, levelQ+1)
-				var p1P ring.Poly
-				if ringP != nil {
-					p1P = c02JunkPoly(r, N, levelP)
-				}
-				lpTok := levelP
-				if lpTok < 0 {
-					lpTok = 0
-				}
-				line := fmt.Sprintf("decomp %s %s %d %d %d %d %d %s %s", Qs, Ps, hasP, levelQ, lpTok, nbPi, d, Mat(in), Mat(prev))
-				out := Try(func() string {
-					dec.DecomposeAndSplit(levelQ, levelP, nbPi, d, p0, p1Q, p1P)
-					digitsQ[d] = c02RowsCopy(p1Q, levelQ+1)
-					s := Mat(digitsQ[d]) + "|"
-					if ringP != nil {
-						digitsP[d] = c02RowsCopy(p1P, levelP+1)
-						s += Mat(digitsP[d])
-					} else {
-						s += "-"
-					}
-					return s
-				})
-				if !po {
-					c.Emit(line, out)
-				}
-				c.Count(fmt.Sprintf("decomp:nbPi=%d", nbPi))
-				d2 := ""
-				if !c02RowsEq(c02RowsCopy(p0, levelQ+1), in) {
-					d2 = "input rewritten"
-				}
-				c.Probe("decomp_input_unchanged", line, "C02/DecomposeAndSplit/input-rewritten", d2)
-			}
-			var mP []uint64
-			if ringP != nil {
-				mP = ch.P[:levelP+1]
-			}
-			c02ProbeDecomp(c, mQ, mP, nbPi, X, digitsQ, digitsP, fmt.Sprintf("%s %s %d %d %d %s", Qs, Ps, levelQ, levelP, nbPi, Mat(in)))
+			c02OneDecomp(c, po, e, dec, levelQ, levelP, "")
 		}
 	}
 }
@@ -748,7 +630,7 @@ func c02Mask(c *Ctx, po bool, pool map[int][]uint64) {
 			digits := make([][]uint64, n)
 			for j := 0; j < n; j++ {
 				digits[j] = make([]uint64, 16)
-				ring.MaskVec(x, j*w, mask, digits[j])
+				c02Panics(func() { ring.MaskVec(x, j*w, mask, digits[j]) })
 				if !po {
 					c.Emit(fmt.Sprintf("mask %d %d %s", j*w, mask, Vec(x)), Vec(digits[j]))
 				}
